@@ -3,14 +3,22 @@ import DW.Driver.Codec
 namespace DW.Driver
 open Lean DW
 
-def stdOfReq (j : Json) : D Std :=
+def stdOfReqV (variant : Bool) (j : Json) : D Std :=
   match j.getObjVal? "std" with
-  | .ok v => stdOf v
-  | .error _ => stdOf (Json.mkObj [])
+  | .ok v => stdOfV variant v
+  | .error _ => stdOfV variant (Json.mkObj [])
+
+/-- run a handler under two Std instances that differ only in what a table *miss* returns; if the
+results differ, a primitive outside the supplied tables influenced the outcome and the case is void. -/
+def withStd (j : Json) (f : Std → D Json) : D Json := do
+  let s1 ← stdOfReqV false j
+  let s2 ← stdOfReqV true j
+  let r1 ← f s1
+  let r2 ← f s2
+  if r1.compress == r2.compress then pure r1 else pure (Json.mkObj [("stdmiss", Json.bool true)])
 
 /-- {"op":"dump","inst":<pyval>,"exclude":null|[..],"skip_defaults":null|bool,"std":{..}} -/
-def handleDump (j : Json) : D Json := do
-  let std ← stdOfReq j
+def handleDump (j : Json) : D Json := withStd j fun std => do
   let inst ← pyvalOf (← j.getObjVal? "inst")
   let excl ← optField j "exclude" (fun v => do (← arrOf v).mapM strOf)
   let sd ← optField j "skip_defaults" (fun v => v.getBool?)
@@ -19,8 +27,7 @@ def handleDump (j : Json) : D Json := do
   | .error e => pure (Json.mkObj [("err", derrJ e)])
 
 /-- {"op":"load","ty":<cls type>,"doc":<jval>,"std":{..}} -/
-def handleLoad (j : Json) : D Json := do
-  let std ← stdOfReq j
+def handleLoad (j : Json) : D Json := withStd j fun std => do
   let ty ← tyOf (← j.getObjVal? "ty")
   let doc ← jvalOf (← j.getObjVal? "doc")
   match fromdict std ty doc with
